@@ -418,7 +418,8 @@ def translation_stage(mod):
     gen_mod = tr["spec"]["module"]
     proofs = list(tr["proofs"])
     res = {"ok": False, "qdir": None, "theorems": [], "problems": [], "generated_sha": None, "cached": False,
-           "functions": [f"{a}:{b}" for a, b in tr["spec"]["functions"]]}
+           "functions": [f"{it[0]}:{it[1]}" + (f"[slice {it[2]['name']}]" if len(it) > 2 else "")
+                         for it in tr["spec"]["functions"]]}
     try:
         text = pytrans.translate(tr["spec"], REPO)
     except pytrans.Untranslatable as e:
